@@ -346,6 +346,13 @@ def _wrapper(ctx, P):
                 bad = bad or f"the new dimension is declared with size {sizes.get(ocd[0][0])!r}; n bin edges give n-1 bins"
         if kw.get("dask") != "parallelized":
             bad = bad or f"dask={kw.get('dask')!r}"
+        # the kernel must see the caller's three arrays themselves (dimension renames aside): data, cell bounds, bin edges
+        for pos, nm in ((1, "phi"), (2, "theta"), (3, "levels")):
+            x = a[pos] if len(a) > pos else None
+            ops = [e[0] for e in x.eff] if isinstance(x, Obj) else None
+            if not (isinstance(x, Obj) and x.name == nm and all(op in ("rename", "transpose", "copy") for op in ops)):
+                bad = bad or (f"argument {pos} of the kernel is {x!r} (operations {ops}); the caller's `{nm}` values must be passed as they are" +
+                              (" - a subscript with the dimension name selects the dimension *coordinate*, not the array of bin edges" if ops and "getitem" in ops else ""))
     if not bad:
         if not (isinstance(out, Obj) and out.name == "APPLIED" and out.attrs.get("dims", ())[-1] == Sym("lev")):
             bad = f"the result's new dimension is {getattr(out, 'attrs', {}).get('dims')}, expected the target's dimension `lev`"
